@@ -1552,6 +1552,8 @@ class Monad(object, metaclass=MonadMeta):
             result_type = float
         elif func_name == 'GROUP_CONCAT':
             result_type = str
+        elif func_name == 'SUM' and expr_type is bool:
+            result_type = int
         else:
             result_type = expr_type
         if distinct is None:
